@@ -23,6 +23,7 @@ var ErrBrokenSession = errors.New("broken session")
 var errRepeatSessionClosing = errors.New("trying to close a closed session")
 var errRepeatStreamClosing = errors.New("trying to close a closed stream")
 var errNoMultiplex = errors.New("a singleplexing session can have only one stream")
+var errAcceptBacklogFull = errors.New("too many streams waiting to be accepted, stream refused")
 
 type SessionConfig struct {
 	Obfuscator
@@ -262,8 +263,18 @@ func (sesh *Session) recvDataFromRemote(data []byte) error {
 		return existingStream.recvFrame(frame)
 	} else {
 		newStream := makeStream(sesh, frame.StreamID)
-		sesh.streams[frame.StreamID] = newStream
-		sesh.acceptCh <- newStream
+		select {
+		case sesh.acceptCh <- newStream:
+			sesh.streams[frame.StreamID] = newStream
+		default:
+			// The accept backlog is full. Blocking here would stall this connection's receive loop while
+			// holding streamsM - and with it every other stream and the teardown of the session - until
+			// someone calls Accept, which never happens once the session is closed. Refuse the stream
+			// instead: its id is remembered as closed so that its later frames are dropped.
+			sesh.streams[frame.StreamID] = nil
+			sesh.streamsM.Unlock()
+			return errAcceptBacklogFull
+		}
 		sesh.streamsM.Unlock()
 		// new stream
 		sesh.streamCountIncr()
